@@ -26,6 +26,9 @@ import (
 
 var _ ResponseWriter = (*recorder)(nil)
 
+// sniffLen is the number of bytes of a response started by ReadFrom that go through Write (same as net/http).
+const sniffLen = 512
+
 var copyBufPool = sync.Pool{
 	New: func() any {
 		b := make([]byte, 32*1024)
@@ -190,16 +193,22 @@ func (r *recorder) WriteString(s string) (n int, err error) {
 // Any error except EOF encountered during the read is also returned.
 func (r *recorder) ReadFrom(src io.Reader) (n int64, err error) {
 	if rf, ok := r.ResponseWriter.(io.ReaderFrom); ok {
-		n, err = rf.ReadFrom(src)
-		// Account for the bytes accepted by the underlying writer whether or not the copy ended with an error, and
-		// consider the response written only if something was actually sent (same as the fallback path below).
-		if n > 0 {
-			if r.size == notWritten {
-				r.size = 0
+		if r.size == notWritten {
+			// Like net/http does with its first sniffLen bytes, start the response through Write, which commits the
+			// header and accounts for the bytes as they go out. From then on the response is known to be started,
+			// even if the rest of the copy is cut short by a panic in src.
+			bufp := copyBufPool.Get().(*[]byte)
+			n, err = io.CopyBuffer(onlyWrite{r}, io.LimitReader(src, sniffLen), *bufp)
+			copyBufPool.Put(bufp)
+			if err != nil || n < sniffLen {
+				return n, err
 			}
-			r.size += int(n)
 		}
-		return n, err
+		// Account for the bytes accepted by the underlying writer whether or not the copy ended with an error.
+		var rest int64
+		rest, err = rf.ReadFrom(src)
+		r.size += int(rest)
+		return n + rest, err
 	}
 
 	// Fallback in compatibility mode.
